@@ -112,18 +112,28 @@ def run_pool_case(case):
 
     def main_fn():
         kw = dict(context=ctx, work_queue_maxsize=conv(wq), results_queue_maxsize=conv(rq))
+        if case.get("join_timeout"):
+            kw["join_timeout"] = case["join_timeout"]
         pool = Pool(nworkers, Factory(), **kw) if factory else Pool([Worker() for _ in range(nworkers)], **kw)
         state["pool"] = pool
-        with pool:
-            for act in case["hist"]:
-                if act[0] == 0:
-                    fn = pool.imap if act[1] else pool.imap_unordered
-                    results.append(list(fn(iter(list(act[2])), act[3])))
-                else:
-                    pool.until_all_ready()
-                    state["ready_ok"] = state.get("ready_ok", True) and all(
-                        p.begin_finished.flag and "begin" in lifelog.get(p.wid, []) for p in pool.procs)
-                    sc.log("ready")
+
+        class BodyError(Exception):
+            pass
+        try:
+            with pool:
+                for act in case["hist"]:
+                    if act[0] == 0:
+                        fn = pool.imap if act[1] else pool.imap_unordered
+                        results.append(list(fn(iter(list(act[2])), act[3])))
+                    else:
+                        pool.until_all_ready()
+                        state["ready_ok"] = state.get("ready_ok", True) and all(
+                            p.begin_finished.flag and "begin" in lifelog.get(p.wid, []) for p in pool.procs)
+                        sc.log("ready")
+                if case.get("exc"):
+                    raise BodyError()          # the pool context is left through an exception of the body
+        except BodyError:
+            pass
 
     opp.CMThread.start, opp.CMThread.join, opp.threading = fake_start, fake_join, ThreadingShim()
     try:
